@@ -241,6 +241,37 @@ def callback_family() -> List[List[list]]:
     return res
 
 
+def raise_family() -> List[List[list]]:
+    """a controller write whose setter callback raises (answered -70402): other subscribers / the writer
+    subscribed or not; something queued for the writer or not; alone or inside a scene write next to a
+    succeeding query; later changes and reads"""
+    res = []
+    for x, y in ((0, 1), (1, 0), (3, 0), (0, 3)):
+        for writer_sub in (False, True):
+            for other_sub in (True, False):
+                for queued in (False, True):
+                    for scene in (False, True):
+                        for d in (0, 4, 10):
+                            ops = [["advance", 1], ["cb", x, "raise"], ["connect", 0], ["verify", 0], ["connect", 1], ["verify", 1]]
+                            if writer_sub:
+                                ops += [["put", 0, x, True, None, False], ["put", 0, y, True, None, False]]
+                            if other_sub:
+                                ops += [["put", 1, x, True, None, False], ["put", 1, y, True, None, False]]
+                            ops += [["app_set", x, vfor(x, 10)], ["advance", 16]]
+                            if queued:
+                                ops.append(["app_set", x, vfor(x, 11)])
+                            if d:
+                                ops.append(["advance", d])
+                            if scene:
+                                ops.append(["putm", 0, [[y, None, vfor(y, 21)], [x, None, vfor(x, 20)]], False])
+                            else:
+                                ops.append(["put", 0, x, None, vfor(x, 20), False])
+                            ops += [["ready"], ["advance", 16], ["get", 1, x], ["app_set", x, vfor(x, 20)], ["advance", 16],
+                                    ["put", 1, x, None, vfor(x, 30), False], ["advance", 16], ["get", 0, x]]
+                            res.append(ops)
+    return res
+
+
 def scene_family() -> List[List[list]]:
     """one PUT with several queries ("scene" writes): on a bridge whose two accessories share their
     iids (#x on aid 2, #x+4 on aid 3) and on the standalone accessory; an event for one of the written
@@ -287,9 +318,11 @@ def random_script(rng: random.Random, max_ops: int = 30, flavour: str = "c12") -
     if rng.random() < 0.35:
         # setter callbacks on some (never always-null) characteristics
         for x in [x for x in xs if x % 4 not in NUL][: rng.choice([1, 1, 2])]:
-            kind = rng.choice(["echo", "echo", "set_to", "set_other"])
+            kind = rng.choice(["echo", "echo", "set_to", "set_other", "raise"])
             if kind == "echo":
                 ops.append(["cb", x, "echo"])
+            elif kind == "raise":
+                ops.append(["cb", x, "raise"])
             elif kind == "set_to":
                 ops.append(["cb", x, "set_to", vfor(x, rng.choice([7, 20, 50]))])
             else:
@@ -456,10 +489,23 @@ def canon_impl(res: Dict[str, Any]) -> Dict[str, Any]:
 def model_line(ops, fixed=True, imm=None, nul=None) -> Dict[str, Any]:
     ti, tn = tables(ops)
     return {"layer": "sysev", "imm": ti if imm is None else imm, "nul": tn if nul is None else nul,
-            "fix12": fixed, "fix13": fixed, "fixResub": fixed, "nchars": 8 if is_bridge(ops) else 4, "ops": ops}
+            "fix12": fixed, "fix13": fixed, "fixResub": fixed, "fixRaise": fixed, "fixHand": fixed, "nchars": 8 if is_bridge(ops) else 4, "ops": ops}
+
+
+def canon_multi(e):
+    """a 207 Multi-Status body: one entry per written characteristic (the last status wins), by index --
+    the order of the entries in the body is not an observable of C12 / C13"""
+    if len(e) >= 4 and e[1] == "resp" and isinstance(e[3], dict) and "chars" in e[3]:
+        last = {}
+        for c in e[3]["chars"]:
+            last[c[0]] = list(c)
+        return list(e[:3]) + [{"chars": [last[k] for k in sorted(last)]}] + list(e[4:])
+    return e
 
 
 def first_difference(model, impl):
+    model = dict(model, log={k: [canon_multi(e) for e in v] for k, v in model.get("log", {}).items()})
+    impl = dict(impl, log={k: [canon_multi(e) for e in v] for k, v in impl.get("log", {}).items()})
     if model.get("nobj") != impl.get("nobj"):
         return {"what": "number of connections", "model": model.get("nobj"), "impl": impl.get("nobj")}
     for i, (a, b) in enumerate(zip(model["digests"], impl["digests"])):
